@@ -31,6 +31,10 @@ FINDINGS = {
 
 
 def annotate(op, reply):
+    if op == "gwrace" and reply.startswith("gwrace "):
+        w = reply.split()
+        if len(w) > 1 and w[1] in ("acq", "cancel"):
+            return op + " " + w[1]
     if op.startswith("go ") and reply.startswith("go "):
         w = reply.split()
         if len(w) > 2 and w[2] in ("acq", "cancel"):
@@ -59,18 +63,23 @@ def spec_violated(rep):
         if op.startswith("case "):
             key_of, last = {}, {}
         for bad in ("panic", "unexpected-", "stuck=", "timeout"):
-            if bad in line:
+            if bad in line and not (bad == "timeout" and line.startswith("gwttl ")):
                 return "`%s` → `%s`: the real lock %s" % (op, line, "panicked" if bad == "panic" else "left a caller blocked / did not react")
         w = line.split()
         if op.startswith("gwttl ") and w and w[0] == "gwttl":
             for item, asked in zip(w[1:], op.split()[1:]):
-                if item.endswith("lock-error-residual"):
+                if item.endswith("lock-err-residual"):
                     return "gateway Lock(TTL=%s) answered with an error but its caller is still queued on the key (the key can never be locked again)" % asked
-                if item.endswith(":eff=0") and int(asked) > 1000:
+                if item.endswith(":timeout=0") and int(asked) > 1000:
                     return ("gateway Lock(TTL=%s ms) was released by its watchdog at once: time.Duration(TTL)*time.Millisecond "
                             "overflowed int64 nanoseconds" % asked)
-                if item.endswith(":eff=0"):
+                if item.endswith(":timeout=0"):
                     return "gateway Lock(TTL=%s ms) was released at once (TTL floor missing)" % asked
+        if w and w[0] == "gwrace" and len(w) == 4:
+            if w[3] != "left=0":
+                return "the Lock RPC whose caller gave up while it was being granted left a caller on the key (%s)" % line
+            if (w[1], w[2]) not in (("acq", "ok"), ("cancel", "err")):
+                return "the Lock RPC took the `%s` branch but answered `%s` (%s)" % (w[1], w[2], line)
         if op.startswith("unlockx ") and len(w) > 3 and w[0] == "unlockx" and w[3].startswith("ok"):
             return ("unlock with a foreign ID released another caller's lock: `%s` (an id issued on another key) was accepted on key %s (%s)"
                     % (op, w[2], line))
